@@ -73,13 +73,13 @@ def blocks_plan(ctx):
         return [("pp", [("ph", "ph", 2), ("ph", "pphh", 1), ("pphh", "ph", 1), ("pphh", "pphh", 0)]),
                 ("ip", [("h", "h", 2), ("h", "phh", 1), ("phh", "h", 1), ("phh", "phh", 0)]),
                 ("ea", [("p", "p", 2), ("p", "pph", 1), ("pph", "p", 1)]),
-                ("dip", [("hh", "hh", 1)]),
+                ("dip", [("hh", "hh", 1), ("hh", "phhh", 2)]),     # second order: first order at which the lower class is projected out
                 ("dea", [("pp", "pp", 1)])]
     return [("pp", [("ph", "ph", 3), ("ph", "pphh", 2), ("pphh", "ph", 2), ("pphh", "pphh", 1)]),
             ("ip", [("h", "h", 3), ("h", "phh", 2), ("phh", "h", 2), ("phh", "phh", 1)]),
             ("ea", [("p", "p", 3), ("p", "pph", 2), ("pph", "p", 2), ("pph", "pph", 1)]),
-            ("dip", [("hh", "hh", 2), ("hh", "phhh", 1), ("phhh", "hh", 1)]),
-            ("dea", [("pp", "pp", 2), ("pp", "ppph", 1), ("ppph", "pp", 1)])]
+            ("dip", [("hh", "hh", 2), ("hh", "phhh", 2), ("phhh", "hh", 2)]),
+            ("dea", [("pp", "pp", 2), ("pp", "ppph", 2), ("ppph", "pp", 2)])]
 
 
 def export_pair(exprs, idx_names, real=True):
